@@ -44,6 +44,17 @@ func (s *Schema) AddType(typ Type) error {
 		}
 	}
 
+	// A type of the schema never has nil maps: a resource created through the
+	// schema's own element (s.Types[i].New()) would otherwise initialize them,
+	// which is a write to the schema by what looks like a read.
+	if typ.Attrs == nil {
+		typ.Attrs = map[string]Attr{}
+	}
+
+	if typ.Rels == nil {
+		typ.Rels = map[string]Rel{}
+	}
+
 	s.Types = append(s.Types, typ)
 
 	return nil
